@@ -311,6 +311,9 @@ pub struct PropSpec {
 pub struct Catalogue {
     pub db: &'static ReflectionDatabase<'static>,
     pub class_names: Vec<String>,
+    /// classes that take at least one default from an ancestor: a serializable property for which the class's own
+    /// default table has no entry while a superclass's table has one (computed from the loaded database)
+    pub inheriting: Vec<String>,
     props: HashMap<String, Vec<PropSpec>>,
 }
 
@@ -319,7 +322,28 @@ impl Catalogue {
         let db = rbx_reflection_database::get();
         let mut class_names: Vec<String> = db.classes.keys().map(|k| k.to_string()).collect();
         class_names.sort();
-        Catalogue { db, class_names, props: HashMap::new() }
+        let mut inheriting = Vec::new();
+        for cn in &class_names {
+            let c = &db.classes[cn.as_str()];
+            let mut cur = c.superclass.as_ref().and_then(|s| db.classes.get(s.as_ref()));
+            let mut guard = 0;
+            let mut found = false;
+            while let Some(a) = cur {
+                if a.default_properties.keys().any(|k| !c.default_properties.contains_key(k.as_ref())) {
+                    found = true;
+                    break;
+                }
+                cur = a.superclass.as_ref().and_then(|s| db.classes.get(s.as_ref()));
+                guard += 1;
+                if guard > db.classes.len() {
+                    break;
+                }
+            }
+            if found {
+                inheriting.push(cn.clone());
+            }
+        }
+        Catalogue { db, class_names, inheriting, props: HashMap::new() }
     }
     /// all property descriptors visible on a class (own and inherited), sorted by name
     pub fn props_of(&mut self, class: &str) -> &Vec<PropSpec> {
@@ -525,6 +549,8 @@ pub fn gen_forest(rng: &mut Rng, cat: &mut Catalogue, cfg: &GenCfg) -> Forest {
     let case_class: Option<String> = if cfg.same_class {
         Some(if rng.chance(cfg.unknown_pct) {
             rng.pick(&unknown_classes[..4]).to_string()
+        } else if !cat.inheriting.is_empty() && rng.chance(12) {
+            rng.pick(&cat.inheriting).clone()
         } else if rng.chance(80) {
             rng.pick(&HOT_CLASSES[..6]).to_string()
         } else {
